@@ -264,7 +264,7 @@ pub fn systematic(ctx: &mut Ctx, part: &str, base: &ParCase, prop: &str, bound: 
     (runs, complete)
 }
 
-fn run_prop(ctx: &mut Ctx, prop: &'static str, g: ParGen, random_cases: u32, sys_bases: usize, sys_bound: usize, sys_max_runs: usize) {
+pub fn run_prop(ctx: &mut Ctx, prop: &'static str, g: ParGen, random_cases: u32, sys_bases: usize, sys_bound: usize, sys_max_runs: usize) {
     let known = ctx.known.clone();
     let check_det = ctx.tier == Tier::Thorough;
     // ---- random / PCT schedules ---------------------------------------------
